@@ -72,7 +72,7 @@ CHECKS = {
             "DESIGN.md 4/C08"),
     "C09": ("exploration",
             "bounded-exhaustive slot/clause/comment-position substitution over template programs plus fixtures, independent canonical-tree oracle",
-            "A template program with 17 slots (int/float/string/map/struct/array literals, src/help/outname/special strings, resource numbers, keywords): base, every 1-slot and every 2-slot substitution from per-slot edge-value lists; every optional clause removed singly and in pairs; a comment before each of 22 element positions singly and in pairs, dangling before every closing bracket and inside collections/resource/modifier lists; all 24 orders of four calls; all .mro fixtures of the repository; six include graphs (~4600 accepted sources). Oracle: formatted text parses; an independent reflective canonical rendering of the parsed trees (no positions, numbers by value, calls as a set, modifiers by effect) is equal; comments kept (exactly once unless dangling); format is a fixed point; compiles if the source did; the include-expanded rendering compiles alone with an equal call graph.",
+            "A template program with 17 slots (int/float/string/map/struct/array literals, src/help/outname/special strings, resource numbers, keywords): base, every 1-slot and every 2-slot substitution from per-slot edge-value lists; every optional clause removed singly and in pairs; a comment before each of 23 element positions singly and in pairs, dangling before every closing bracket and inside collections/resource/modifier lists; all 24 orders of four calls; all .mro fixtures of the repository; six include graphs (~4600 accepted sources). Oracle: formatted text parses; an independent reflective canonical rendering of the parsed trees (no positions, numbers by value, calls as a set, modifiers by effect) is equal; comments kept (exactly once unless dangling); format is a fixed point; compiles if the source did; the include-expanded rendering compiles alone with an equal call graph.",
             "sources outside the template/fixture families; semantic equality is judged on unchecked parse trees plus compilation, not on execution",
             "DESIGN.md 4/C09"),
     "C10": ("exploration",
